@@ -95,3 +95,117 @@ package cache
 //@
 //@ # monotonicity: the remaining lifetime of a stored entry never grows between two reads
 //@ lemma remaining_monotone (e *CacheEntry, n1 time.Time, n2 time.Time): inst(n1) <= inst(n2) ==> remSpec(e, n2) <= remSpec(e, n1)
+//@
+//@ # ---- C13: failure entries are matched on their full key, whatever the 64-bit table returns
+//@ pred fqEqual(a FailureQuestionKey, b FailureQuestionKey) := a.Question.Name == b.Question.Name && a.Question.Qtype == b.Question.Qtype && a.Question.Qclass == b.Question.Qclass && a.CD == b.CD && a.Scope == b.Scope
+//@ pred fzEqual(a FailureZoneKey, b FailureZoneKey) := a.Zone == b.Zone && a.Qclass == b.Qclass
+//@
+//@ func failureQuestionKeysEqual
+//@   modifies nothing
+//@   ensures result == fqEqual(a, b)
+//@ func failureZoneKeysEqual
+//@   modifies nothing
+//@   ensures result == fzEqual(a, b)
+//@ func failureEntriesSameKey
+//@   modifies nothing
+//@   ensures result ==> a != nil && b != nil && a.kind == b.kind && (a.kind == FailureKindQuestion || a.kind == FailureKindZone)
+//@   ensures result && a.kind == FailureKindQuestion ==> fqEqual(a.question, b.question)
+//@   ensures result && a.kind == FailureKindZone ==> fzEqual(a.zone, b.zone)
+//@   ensures a != nil && b != nil && a.kind == b.kind && a.kind == FailureKindQuestion && fqEqual(a.question, b.question) ==> result
+//@   ensures a != nil && b != nil && a.kind == b.kind && a.kind == FailureKindZone && fzEqual(a.zone, b.zone) ==> result
+//@
+//@ func failureQuestionHash
+//@   modifies nothing
+//@ func failureZoneHash
+//@   modifies nothing
+//@ func normalizeFailureZoneKey
+//@   modifies nothing
+//@   ensures result.Qclass == key.Qclass && result.Zone == canon(key.Zone)
+//@ func normalizeFailureQuestionKey
+//@   modifies nothing
+//@   ensures result.Question.Qtype == key.Question.Qtype && result.Question.Qclass == key.Question.Qclass && result.CD == key.CD && result.Scope == normScope(key.Scope) && result.Question.Name == canon(key.Question.Name)
+//@
+//@ # loadEntry: the table may return ANY value for the hash (collision included); only the dynamic type is checked here
+//@ func (*FailureCache).loadEntry
+//@   requires c != nil && c.entries != nil
+//@   modifies nothing
+//@   assume at after call (*internal/cache.Cache).Get#1: result1 && dyntype(result0, *failureEntry) ==> as(result0, *failureEntry) != nil
+//@   ensures result1 ==> result0 != nil
+//@
+//@ func (*FailureCache).loadQuestionWithHash
+//@   requires c != nil && c.entries != nil
+//@   modifies nothing
+//@   ensures result2 ==> result0 != nil && result0.kind == FailureKindQuestion && fqEqual(result0.question, key)
+//@   ensures !result2 ==> result0 == nil
+//@
+//@ func (*FailureCache).loadZoneWithHash
+//@   requires c != nil && c.entries != nil
+//@   modifies nothing
+//@   ensures result2 ==> result0 != nil && result0.kind == FailureKindZone && result0.zone.Qclass == key.Qclass && result0.zone.Zone == canon(key.Zone)
+//@   ensures !result2 ==> result0 == nil
+//@
+//@ # ---- C13: the rfc9520 kill switch stops every call into the failure cache; CD drops the witness; zone failures are keyed by (zone, class) only
+//@ func (*Store).recordFailureQuestion
+//@   requires s != nil
+//@   ensures old(s.failureCacheDisabled) ==> calls("(*middleware/cache.FailureCache).RecordQuestion") == 0
+//@   assert at call (*middleware/cache.FailureCache).RecordQuestion#1: arg1.CD == cd && arg1.Question == q && arg1.Scope == scope && (cd ==> len(arg3) == 0)
+//@ func (*Store).RecordFailure
+//@   requires s != nil
+//@   ensures old(s.failureCacheDisabled) ==> calls("(*middleware/cache.Store).recordFailureQuestion") == 0
+//@ func (*Store).LookupFailure
+//@   requires s != nil
+//@   ensures old(s.failureCacheDisabled) ==> !result1 && calls("(*middleware/cache.FailureCache).Lookup") == 0
+//@   assert at call (*middleware/cache.FailureCache).Lookup#1: arg1.CD == req.CheckingDisabled && arg1.Question == req.Question[0] && arg1.Scope == scope
+//@ func (*Store).FailureRetryKey
+//@   requires s != nil
+//@   ensures old(s.failureCacheDisabled) ==> !result1 && calls("(*middleware/cache.FailureCache).RetryKey") == 0
+//@ func (*Store).RecordZoneFailure
+//@   requires s != nil
+//@   ensures old(s.failureCacheDisabled) ==> calls("(*middleware/cache.FailureCache).RecordZone") == 0
+//@   assert at call (*middleware/cache.FailureCache).RecordZone#1: arg1.Zone == zone && arg1.Qclass == q.Qclass && len(arg3) == 0
+//@ func (*Store).ClearZoneFailure
+//@   requires s != nil
+//@   ensures old(s.failureCacheDisabled) ==> calls("(*middleware/cache.FailureCache).ResetZone") == 0
+//@ func (*Store).resetQuestionFailure
+//@   requires s != nil
+//@   ensures old(s.failureCacheDisabled) ==> calls("(*middleware/cache.FailureCache).ResetQuestion") == 0
+//@ func (*Store).resetMatchingFailures
+//@   requires s != nil
+//@   ensures old(s.failureCacheDisabled) ==> calls("(*middleware/cache.FailureCache).ResetMatching") == 0
+//@
+//@ # a useful answer resets the exact state and EVERY ancestor-zone state: each visit of the zone walk resets that zone
+//@ func (*FailureCache).ResetMatching$1
+//@   nosafety ovf
+//@   note the captured counter `removed` counts table entries; its overflow is not modelled
+//@   ensures calls("(*middleware/cache.FailureCache).ResetZone") == 1 && result
+//@   assert at call (*middleware/cache.FailureCache).ResetZone#1: arg1.Zone == zone && arg1.Qclass == key.Question.Qclass
+//@
+//@ # ---- C13: record: first failure starts at the minimum; an active generation is returned unchanged; a renewal
+//@ # advances the streak by at most one (or resets it after a quiet period) and is bounded by maxTTL from now
+//@ func (*failureEntry).hit
+//@   requires e != nil
+//@   modifies nothing
+//@   ensures result.Kind == e.kind && result.Streak == e.streak && result.RetryAfter == e.retryAfter && result.Question == e.question && result.Zone == e.zone
+//@
+//@ # the injectable clock: assumed to behave like time.Now (no effect on cache state, a reading of the clock)
+//@ func field FailureCache.now
+//@   trusted
+//@   modifies nothing
+//@   ensures clock(result)
+//@
+//@ # table-content invariant of the failure table: proved at both write sites of record (Add, CompareAndSwap),
+//@ # assumed where entries are read back (loadEntry). No other function writes c.entries.
+//@ pred feInv(e *failureEntry) := e != nil && e.streak >= 1 && real(e.retryAfter)
+//@
+//@ func (*FailureCache).record
+//@   requires fcInv(c) && c.entries != nil && candidate != nil
+//@   assume at after call (*middleware/cache.FailureCache).loadEntry#1: result1 ==> feInv(result0)
+//@   loop 1 invariant true
+//@   assert at return: result.Streak >= 1 && real(result.RetryAfter)
+//@   assert at call (*internal/cache.Cache).Add#1: dyntype(arg2, *failureEntry) && feInv(as(arg2, *failureEntry)) && as(arg2, *failureEntry).streak == 1 && inst(as(arg2, *failureEntry).retryAfter) == inst(now) + c.initialTTL
+//@   assert at call (*internal/cache.Cache).CompareAndSwap#1: dyntype(arg3, *failureEntry) && feInv(as(arg3, *failureEntry))
+//@   assert at call (*internal/cache.Cache).CompareAndSwap#1: as(arg3, *failureEntry).streak <= current.streak + 1 && inst(as(arg3, *failureEntry).retryAfter) <= inst(now) + c.maxTTL && inst(as(arg3, *failureEntry).retryAfter) >= inst(now) + c.initialTTL
+//@   assert at call (*internal/cache.Cache).CompareAndSwap#1: as(arg2, *failureEntry) == current && inst(current.retryAfter) <= inst(now)
+//@   assert at call (*internal/cache.Cache).CompareAndSwap#1: inst(now) - inst(current.retryAfter) >= c.maxTTL ==> as(arg3, *failureEntry).streak == 1
+//@   assert at call (*internal/cache.Cache).CompareAndSwap#1: as(arg3, *failureEntry).kind == current.kind && as(arg3, *failureEntry).question == current.question && as(arg3, *failureEntry).zone == current.zone
+//@   assert at return#2: result.Streak == current.streak && result.RetryAfter == current.retryAfter && inst(now) < inst(current.retryAfter)
